@@ -515,34 +515,24 @@ func (env *c19Env) settledDigest() (string, bool) {
 
 func c19DiffDigest(a, b string) string {
 	la, lb := strings.Split(a, "\n"), strings.Split(b, "\n")
-	ma := map[string]int{}
+	ma, mb := map[string]int{}, map[string]int{}
 	for _, l := range la {
 		ma[l]++
 	}
-	mb := map[string]int{}
 	for _, l := range lb {
 		mb[l]++
 	}
 	var out []string
 	for _, l := range la {
-		if mb[l] < ma[l] {
+		if ma[l] > mb[l] {
 			out = append(out, "- "+c19Trunc(l, 300))
-			mb[l]++
+			ma[l]--
 		}
 	}
 	for _, l := range lb {
-		if ma[l] < mb[l] && !strings.HasPrefix(l, "- ") {
-			// recomputed below
-		}
-	}
-	mb = map[string]int{}
-	for _, l := range lb {
-		mb[l]++
-	}
-	for _, l := range lb {
-		if ma[l] < mb[l] {
+		if mb[l] > ma[l] {
 			out = append(out, "+ "+c19Trunc(l, 300))
-			ma[l]++
+			mb[l]--
 		}
 	}
 	if len(out) > 8 {
